@@ -27,6 +27,7 @@ type bgen struct {
 	rootProps   map[string][]string // root definition -> its direct property names (targets of anonymous pointers)
 	bodyParams  []string            // shared body parameters
 	schemaResps []string            // shared responses with a schema
+	scnOps      int
 }
 
 var auxPathPool = []string{"aux/a.json", "aux/deep/b.json", "other/c.json"}
@@ -181,7 +182,8 @@ func (b *bgen) bschema(from string, depth int, refP float64) M {
 func (b *bgen) refFreeSchema(depth int) M { return b.bschema("", depth, 0) }
 
 type BundleOpts struct {
-	Plain    bool // only names that need neither JSON-pointer nor URL escaping
+	Scenario string // "" or a named interplay shape injected into the bundle (see injectScenario)
+	Plain    bool   // only names that need neither JSON-pointer nor URL escaping
 	Plus     bool
 	AnonOK   bool
 	SharedOK bool
@@ -225,6 +227,31 @@ func genBundle(g *Gen, o BundleOpts) *Bundle {
 		}
 		b.auxDefs[ap] = names
 	}
+	// name collisions of imported, $ref-free definitions with root definitions (exact / case-insensitive): decided before
+	// anything is generated, so that the colliding definition can be referenced from everywhere (also from a direct
+	// sub-schema of a root definition that is itself the target of an anonymous pointer)
+	collider := ""
+	colliderDoc := ""
+	if nAux > 0 && g.p(0.45) {
+		colliderDoc = b.auxPaths[0]
+		rn := b.rootDefs[g.n(len(b.rootDefs))]
+		collider = rn
+		if g.p(0.5) && rn[0] >= 'a' && rn[0] <= 'z' {
+			collider = strings.ToUpper(rn[:1]) + rn[1:]
+			g.hit("collide:case")
+		} else {
+			g.hit("collide:exact")
+		}
+		dup := false
+		for _, n := range b.auxDefs[colliderDoc] {
+			if n == collider {
+				dup = true
+			}
+		}
+		if !dup {
+			b.auxDefs[colliderDoc] = append(b.auxDefs[colliderDoc], collider)
+		}
+	}
 	g.hit(fmt.Sprintf("aux:%d", nAux))
 	// root definitions (placeholders first so that refs can target any of them, including themselves: recursion)
 	rootDefs := M{}
@@ -238,10 +265,9 @@ func genBundle(g *Gen, o BundleOpts) *Bundle {
 	// direct properties of root definitions: targets of anonymous pointers
 	for _, n := range b.rootDefs {
 		if props, ok := rootDefs[n].(M)["properties"].(M); ok {
-			for p, ps := range props {
-				if _, isRef := ps.(M)["$ref"]; !isRef {
-					b.rootProps[n] = append(b.rootProps[n], p)
-				}
+			for p := range props {
+				// the sub-schema may itself be a $ref (to a local or an imported definition)
+				b.rootProps[n] = append(b.rootProps[n], p)
 			}
 			sort.Strings(b.rootProps[n])
 		}
@@ -270,31 +296,22 @@ func genBundle(g *Gen, o BundleOpts) *Bundle {
 	for _, ap := range b.auxPaths {
 		defs := M{}
 		for _, n := range b.auxDefs[ap] {
-			defs[n] = b.bschema(ap, 2, 0.3)
+			if ap == colliderDoc && n == collider {
+				defs[n] = b.refFreeSchema(2)
+			} else {
+				defs[n] = b.bschema(ap, 2, 0.3)
+			}
 		}
 		if g.p(0.3) && len(b.auxDefs[ap]) > 0 {
 			// recursion inside an auxiliary document
 			n := b.auxDefs[ap][0]
+			if ap == colliderDoc && n == collider {
+				continue
+			}
 			defs[n] = M{"type": "object", "properties": M{"next": M{"$ref": "#/definitions/" + jsonPtrEscape(n)}, "v": M{"type": "integer"}}}
 			g.hit("rec:aux-self")
 		}
 		aux[ap] = M{"definitions": defs}
-	}
-	// name collisions of imported, $ref-free definitions with root definitions (exact / case-insensitive)
-	if nAux > 0 && g.p(0.35) {
-		ap := b.auxPaths[0]
-		rn := b.rootDefs[g.n(len(b.rootDefs))]
-		cn := rn
-		if g.p(0.5) && rn[0] >= 'a' && rn[0] <= 'z' {
-			cn = strings.ToUpper(rn[:1]) + rn[1:]
-			g.hit("collide:case")
-		} else {
-			g.hit("collide:exact")
-		}
-		if _, dup := aux[ap]["definitions"].(M)[cn]; !dup {
-			aux[ap]["definitions"].(M)[cn] = b.refFreeSchema(2)
-			b.auxDefs[ap] = append(b.auxDefs[ap], cn)
-		}
 	}
 	// shared parameters / responses
 	params := M{}
@@ -390,6 +407,7 @@ func genBundle(g *Gen, o BundleOpts) *Bundle {
 		}
 		paths[pth] = pi
 	}
+	b.injectScenario(o.Scenario, rootDefs, paths, aux)
 	root := M{"swagger": "2.0", "info": M{"title": "t", "version": "1"}, "paths": paths, "definitions": rootDefs}
 	if len(params) > 0 {
 		root["parameters"] = params
@@ -398,4 +416,63 @@ func genBundle(g *Gen, o BundleOpts) *Bundle {
 		root["responses"] = resps
 	}
 	return &Bundle{Root: root, Aux: aux, Feat: g.feat}
+}
+
+// injectScenario plants an interplay shape that W allows but that independent random choices rarely produce together.
+func (b *bgen) injectScenario(name string, rootDefs, paths M, aux map[string]M) {
+	g := b.Gen
+	resp := func(schema M) M {
+		b.scnOps++
+		return M{"operationId": fmt.Sprintf("scenarioOp%d", b.scnOps), "responses": M{"200": M{"description": "scenario", "schema": schema}}}
+	}
+	switch name {
+	case "collide-pointer":
+		// an imported $ref-free definition collides by name with a root definition; the $ref to it is a direct sub-schema of
+		// another root definition; an anonymous pointer designates that very sub-schema
+		if len(b.auxPaths) == 0 {
+			return
+		}
+		ap := b.auxPaths[0]
+		rn := b.rootDefs[g.n(len(b.rootDefs))]
+		cn := rn
+		if g.p(0.4) && rn[0] >= 'a' && rn[0] <= 'z' {
+			cn = strings.ToUpper(rn[:1]) + rn[1:]
+		}
+		aux[ap]["definitions"].(M)[cn] = b.refFreeSchema(1)
+		holder := "holder" + fmt.Sprint(g.n(3))
+		prop := g.pick([]string{"item", "a b", "x/y", "t~x"})
+		auxRef := relRef("", ap) + "#/definitions/" + urlFragEscape(jsonPtrEscape(cn))
+		rootDefs[holder] = M{"type": "object", "properties": M{prop: M{"$ref": auxRef}, "n": M{"type": "integer"}}}
+		paths["/scn/pointer"] = M{"get": resp(M{"$ref": "#/definitions/" + jsonPtrEscape(holder) + "/properties/" + jsonPtrEscape(prop)})}
+		if g.p(0.6) {
+			paths["/scn/root"] = M{"get": resp(M{"$ref": "#/definitions/" + jsonPtrEscape(rn)})}
+		}
+		if g.p(0.4) {
+			paths["/scn/direct"] = M{"post": resp(M{"type": "array", "items": M{"$ref": auxRef}})}
+		}
+		g.hit("scenario:collide-pointer")
+	case "collide-many":
+		// several imported definitions collide with the same root name (exactly and up to case), referenced from several places
+		if len(b.auxPaths) == 0 {
+			return
+		}
+		rn := b.rootDefs[g.n(len(b.rootDefs))]
+		for i, ap := range b.auxPaths {
+			cn := rn
+			if i%2 == 1 && rn[0] >= 'a' && rn[0] <= 'z' {
+				cn = strings.ToUpper(rn[:1]) + rn[1:]
+			}
+			aux[ap]["definitions"].(M)[cn] = b.refFreeSchema(1)
+			auxRef := relRef("", ap) + "#/definitions/" + urlFragEscape(jsonPtrEscape(cn))
+			paths[fmt.Sprintf("/scn/many%d", i)] = M{"get": resp(M{"$ref": auxRef}), "put": resp(M{"type": "object", "properties": M{"v": M{"$ref": auxRef}}})}
+		}
+		paths["/scn/root"] = M{"get": resp(M{"$ref": "#/definitions/" + jsonPtrEscape(rn)})}
+		g.hit("scenario:collide-many")
+	case "unused-chain":
+		// definitions that become unused only after another one is removed, through names that need escaping
+		a, c := g.pick([]string{"legacy/item", "old~v1", "dead code", "zz"}), g.pick([]string{"leaf", "Leaf node", "l/2"})
+		rootDefs[a] = M{"type": "object", "properties": M{"next": M{"$ref": "#/definitions/" + jsonPtrEscape(c)}}}
+		rootDefs[c] = M{"type": "string"}
+		g.hit("scenario:unused-chain")
+	}
 }
